@@ -45,6 +45,12 @@ def fmtQ (r : Rat) : String := s!"{r.num}/{r.den}"
 def fmtFT (m : Pixman.MatrixQ.FT) : String :=
   s!"{fmtQ m.m00} {fmtQ m.m01} {fmtQ m.m02} {fmtQ m.m10} {fmtQ m.m11} {fmtQ m.m12} {fmtQ m.m20} {fmtQ m.m21} {fmtQ m.m22}"
 
+def fmtOptFT : Option Pixman.MatrixQ.FT → String
+  | none => "-"
+  | some m => "+ " ++ fmtFT m
+def fmtFPair (r : Bool × Option Pixman.MatrixQ.FT × Option Pixman.MatrixQ.FT) : String :=
+  fmtB r.1 ++ " " ++ fmtOptFT r.2.1 ++ " " ++ fmtOptFT r.2.2
+
 def request : P String := do
   let op ← tok
   match op with
@@ -131,6 +137,32 @@ def request : P String := do
     match Pixman.MatrixQ.fBounds (Pixman.MatrixQ.fromFixed t) b with
     | none => pure "0"
     | some r => pure s!"1 {r.x1} {r.y1} {r.x2} {r.y2}"
+  | "f_mul" => do
+    let l ← transform; let r ← transform
+    pure (fmtFT (Pixman.MatrixQ.fMultiply (Pixman.MatrixQ.fromFixed l) (Pixman.MatrixQ.fromFixed r)))
+  | "f_scale" => do
+    let f ← optTransform; let r ← optTransform; let a ← i32; let b ← i32
+    pure (fmtFPair (Pixman.MatrixQ.fScale (f.map Pixman.MatrixQ.fromFixed) (r.map Pixman.MatrixQ.fromFixed)
+      (Pixman.MatrixQ.fixedToRat a) (Pixman.MatrixQ.fixedToRat b)))
+  | "f_rotate" => do
+    let f ← optTransform; let r ← optTransform; let a ← i32; let b ← i32
+    pure (fmtFPair (Pixman.MatrixQ.fRotate (f.map Pixman.MatrixQ.fromFixed) (r.map Pixman.MatrixQ.fromFixed)
+      (Pixman.MatrixQ.fixedToRat a) (Pixman.MatrixQ.fixedToRat b)))
+  | "f_translate" => do
+    let f ← optTransform; let r ← optTransform; let a ← i32; let b ← i32
+    pure (fmtFPair (Pixman.MatrixQ.fTranslate (f.map Pixman.MatrixQ.fromFixed) (r.map Pixman.MatrixQ.fromFixed)
+      (Pixman.MatrixQ.fixedToRat a) (Pixman.MatrixQ.fixedToRat b)))
+  -- the fixed/float conversions on exact binary64: LITERAL equality with the library is required
+  | "f_from" => do
+    let x ← u64
+    match Pixman.MatrixQ.entryFromDouble x.toNat with
+    | none => pure "0 0"
+    | some none => pure "UNDEF"
+    | some (some q) => pure s!"1 {q}"
+  | "f_to" => do
+    let t ← transform
+    pure (String.intercalate " " ([t.m00, t.m01, t.m02, t.m10, t.m11, t.m12, t.m20, t.m21, t.m22].map
+      fun f => toString (Pixman.MatrixQ.fixedToDoubleBits f)))
   | "finv" => do let x ← i32; pure s!"{fixedInverse x}"
   | _ => failure
 
